@@ -292,6 +292,12 @@ def run(ctx):
         for ff in okff:
             jobs.append({"id": len(jobs) + 1, "klass": f"strand {kind} {s_}", "args": [f"--ff={ff}"], "fs0": "absent", "fault": None, "kind": "success",
                          "input": "TEXT:" + gen.pdb_text([gen.nucleic(s_, kind), gen.water((20, 14, 4), resseq=101)])})
+    # every nucleotide type at the 5' and at the 3' end of a strand
+    for kind, s_, okff in (("D", "TACG", ["AMBER", "CHARMM", "TYL06"]), ("D", "CGAT", ["AMBER", "CHARMM", "TYL06"]), ("D", "GCTA", ["CHARMM"]),
+                           ("R", "UACG", ["AMBER", "CHARMM", "TYL06", "PARSE"]), ("R", "CGAU", ["CHARMM", "PARSE"]), ("R", "GCUA", ["AMBER"])):
+        for ff in okff:
+            jobs.append({"id": len(jobs) + 1, "klass": f"strand {kind} {s_} (each base at an end)", "args": [f"--ff={ff}"], "fs0": "absent", "fault": None,
+                         "kind": "success", "input": "TEXT:" + gen.pdb_text([gen.nucleic(s_, kind)])})
     # the same strands as deposited today: phosphate oxygens named OP1 / OP2 (wwPDB remediation), and with the solvent listed
     # under the strand's own chain identifier
     v3 = lambda at: [dict(a, name={"O1P": "OP1", "O2P": "OP2"}.get(a["name"], a["name"])) for a in at]
